@@ -64,6 +64,22 @@ def cells(tier):
     # biggest first (better load balance)
     out.sort(key=lambda x: -(x.get('n', x.get('w', 0)) * 3 + x.get('t', 0) +
                              2 * x['c']))
+    if tier != 'quick':
+        # the biggest cells (2e5 .. 1e6 paths) are split over 8 processes
+        big = []
+        rest = []
+        for c in out:
+            heavy = c['kind'] == 'rt' and c['c'] >= 1 and (
+                (c['n'] >= 6 and (c['parts'] == 2 or c['t'] >= 2)) or
+                (c['n'] == 5 and c['parts'] == 2 and c['c'] == 2 and
+                 c['t'] >= 2))
+            if heavy:
+                big.extend(api.shards(c, 16 if (c['n'] == 6 and c['c'] == 2
+                                                and c['t'] == 2 and
+                                                c['parts'] == 2) else 8, 10))
+            else:
+                rest.append(c)
+        out = big + rest
     return out
 
 
